@@ -136,4 +136,12 @@ def sizePairs : List (Item × Item) → UInt64 → UInt64
   | (k, v) :: r, acc => sizePairs r (Gen._cbor_safe_signaling_add acc (Gen._cbor_safe_signaling_add (size k) (size v)))
 end
 
+/-- `cbor_serialize_alloc`: `okAlloc k` = does `malloc(k)` succeed.  `none` = returned 0 with `*buffer == NULL`;
+`some (written, block)` = the value returned and the block handed to the caller (fresh memory modelled as zeros). -/
+def serializeAlloc (okAlloc : Nat → Bool) (t : Item) : Option (UInt64 × Array UInt8) :=
+  let s := size t
+  if s = 0 then none
+  else if !okAlloc s.toNat then none
+  else some (serialize t (Array.replicate s.toNat 0) 0 s)
+
 end Model
